@@ -52,6 +52,9 @@ pub enum Action {
     RoTx { ops: Vec<OpSpec> },
     /// a read-only transaction on which `commit()` is called
     RoCommit,
+    /// a write transaction whose commit is made to fail at its `call`-th I/O call (EIO); used with
+    /// small `call` values, i.e. before anything reached the header
+    TxFail { ops: Vec<OpSpec>, call: u64 },
     /// close the handle and open the file again
     Reopen,
     /// open a long-lived reader (kept until closed)
@@ -66,6 +69,7 @@ impl Action {
             Action::Tx { ops, commit } => json!({"tx": ops.iter().map(|o| o.to_json()).collect::<Vec<_>>(), "end": if *commit { "commit" } else { "drop" }}),
             Action::RoTx { ops } => json!({"rotx": ops.iter().map(|o| o.to_json()).collect::<Vec<_>>()}),
             Action::RoCommit => json!("ro-commit"),
+            Action::TxFail { ops, call } => json!({"txfail": ops.iter().map(|o| o.to_json()).collect::<Vec<_>>(), "failing_io_call": call}),
             Action::Reopen => json!("reopen"),
             Action::OpenReader => json!("open-reader"),
             Action::CloseReader(i) => json!({"close-reader": i}),
@@ -82,6 +86,9 @@ impl Action {
         }
         if let Some(ops) = v.get("tx") {
             return Action::Tx { ops: ops.as_array().unwrap().iter().map(OpSpec::from_json).collect(), commit: v["end"].as_str() == Some("commit") };
+        }
+        if let Some(ops) = v.get("txfail") {
+            return Action::TxFail { ops: ops.as_array().unwrap().iter().map(OpSpec::from_json).collect(), call: v["failing_io_call"].as_u64().unwrap_or(0) };
         }
         if let Some(ops) = v.get("rotx") {
             return Action::RoTx { ops: ops.as_array().unwrap().iter().map(OpSpec::from_json).collect() };
@@ -113,10 +120,12 @@ pub struct Oracles {
     pub no_trace: bool,
     /// every open reader re-dumped after every action
     pub readers_frozen: bool,
+    /// the write transaction itself is dumped (cursor scans of every bucket) right before commit / drop
+    pub dump_in_tx: bool,
 }
 
 impl Oracles {
-    pub const NONE: Oracles = Oracles { rets: false, dump_after: false, reopen_copy: false, probe_each_op: None, probe_after_commit: None, fileck: false, dbcheck: false, no_trace: false, readers_frozen: false };
+    pub const NONE: Oracles = Oracles { rets: false, dump_after: false, reopen_copy: false, probe_each_op: None, probe_after_commit: None, fileck: false, dbcheck: false, no_trace: false, readers_frozen: false, dump_in_tx: false };
 }
 
 #[derive(Clone, Debug)]
@@ -496,6 +505,17 @@ impl Runner {
                     }
                     return out;
                 }
+                if or.dump_in_tx {
+                    match real::dump_tx(&tx) {
+                        Ok(d) => {
+                            self.stats.reads += 1;
+                            if let Some(diff) = d.diff(&model) {
+                                out.push(Violation::new("in_tx_dump_mismatch", format!("iterating inside the write transaction before it ends differs from the model (left = observed): {}", diff)));
+                            }
+                        }
+                        Err(e) => out.push(Violation::new(if e.starts_with("panic") { panic_class("read_panic", &e) } else { "in_tx_dump_error".into() }, format!("iterating inside the write transaction before it ends: {}", e))),
+                    }
+                }
                 if *commit {
                     let planned = self.fault_next_commit.is_some() || self.count_next_commit;
                     let saved_plan = if planned { crate::iosim::take_plan() } else { None };
@@ -568,6 +588,28 @@ impl Runner {
                     }
                     self.check_committed_state(or, &what, &mut out);
                 }
+            }
+            Action::TxFail { ops, call } => {
+                // run as a committing transaction with an injected fault; it must return an error
+                // and, failing this early, leave the committed state exactly as it was
+                let before_model = self.model.clone();
+                self.fault_next_commit = Some(crate::iosim::Fault { call_index: *call, mode: crate::iosim::FaultMode::Errno(libc::EIO) });
+                let inner = self.step(&Action::Tx { ops: ops.clone(), commit: true }, &Oracles::NONE);
+                out.extend(inner);
+                self.fault_next_commit = None;
+                if self.poisoned {
+                    return out;
+                }
+                if self.pending_post.take().is_none() && self.last_fault_fired {
+                    out.push(Violation::new("commit_ok_despite_io_error", "the failing commit did not return an error"));
+                }
+                if !self.last_fault_fired {
+                    // the commit issues fewer calls than `call`: it simply committed
+                    self.check_committed_state(or, &what, &mut out);
+                    return out;
+                }
+                self.model = before_model;
+                self.check_committed_state(or, &what, &mut out);
             }
             Action::RoTx { ops } => {
                 let before = if or.no_trace { Some(self.file_bytes()) } else { None };
